@@ -89,5 +89,7 @@ TNext == /\ l <= NLog /\ l' = l + 1
             IN  /\ bad' = IF f = <<>> THEN bad ELSE Append(bad, <<l, f>>)
                 /\ drift0' = IF D0(Log[l]) THEN drift0 + 1 ELSE drift0
                 /\ drift1' = IF D1(Log[l]) THEN drift1 + 1 ELSE drift1
-Verdict == (l = NLog + 1) => VerdictLine(l, bad) /\ PrintT(<<"DRIFT", drift0, drift1>>)
+\* the drift counters travel in the verdict as two synthetic entries with line number 0
+Verdict == (l = NLog + 1) =>
+              VerdictLine(l, bad \o << <<0, <<"drift0=" \o ToString(drift0)>>>>, <<0, <<"drift1=" \o ToString(drift1)>>>> >>)
 =============================================================================
